@@ -1,4 +1,311 @@
 package main
 
-// go/types-level obligation generators (C20); filled in later.
-func runTypeCheck(eng *Engine, name string) []*Obligation { return nil }
+import (
+	"encoding/json"
+	"fmt"
+	"go/constant"
+	"go/types"
+	"os"
+	"path/filepath"
+	"sort"
+	"strings"
+
+	"golang.org/x/tools/go/ssa"
+)
+
+// Obligations that are decided without SMT: wiring terms over the SSA of constructor functions
+// (which middleware wraps which handler, in which order) and type/provenance facts (go/types).
+// They are reported with back end "go/ssa" or "go/types".
+
+type wiringSpec struct {
+	Function string            `json:"function"` // short ssa name
+	Routes   map[string]string `json:"routes"`   // path -> expected handler term (calls of <register>)
+	Register string            `json:"register"` // method name that registers a route, e.g. HandleFunc
+	Returns  string            `json:"returns"`  // expected term of the returned value ("" = unchecked)
+	Props    []string          `json:"props"`
+}
+
+func runTypeCheck(eng *Engine, name string) []*Obligation {
+	switch {
+	case strings.HasPrefix(name, "wiring:"):
+		return wiringObligations(eng, strings.TrimPrefix(name, "wiring:"))
+	case strings.HasPrefix(name, "templates:"):
+		return templateObligations(eng, strings.TrimPrefix(name, "templates:"))
+	}
+	return []*Obligation{{Name: "typecheck/" + name, Kind: "typecheck", Status: "failed", Clause: "unknown type-level check"}}
+}
+
+func mkOb(name, kind, clause string, ok bool, detail string, props []string) *Obligation {
+	o := &Obligation{Name: name, Kind: kind, Clause: clause, Props: props, Solvers: map[string]int{}}
+	vc := &VC{Ob: name, Kind: kind, Clause: clause, Raw: detail}
+	if ok {
+		o.Status = "discharged"
+		vc.Verdict, vc.Solver = "unsat", "go/ssa"
+		o.Solvers["go/ssa"] = 1
+	} else {
+		o.Status = "failed"
+		vc.Verdict, vc.Solver = "mismatch", "go/ssa"
+		o.Failed = []*VC{vc}
+	}
+	o.VCs = []*VC{vc}
+	return o
+}
+
+func wiringObligations(eng *Engine, key string) []*Obligation {
+	b, err := os.ReadFile(filepath.Join(verifDir(), "spec", "wiring.json"))
+	if err != nil {
+		return []*Obligation{mkOb("wiring/"+key, "wiring", "spec/wiring.json readable", false, err.Error(), nil)}
+	}
+	var all map[string]*wiringSpec
+	if err := json.Unmarshal(b, &all); err != nil {
+		return []*Obligation{mkOb("wiring/"+key, "wiring", "spec/wiring.json parses", false, err.Error(), nil)}
+	}
+	ws, ok := all[key]
+	if !ok {
+		return []*Obligation{mkOb("wiring/"+key, "wiring", "wiring spec exists", false, "no entry "+key, nil)}
+	}
+	fn := eng.fnByShort(ws.Function)
+	if fn == nil || fn.Blocks == nil {
+		return []*Obligation{mkOb("wiring/"+key, "wiring", "function exists", false, "no function "+ws.Function, nil)}
+	}
+	tb := &termBuilder{fn: fn, seen: map[ssa.Value]bool{}}
+	var out []*Obligation
+	got := map[string]string{}
+	for _, blk := range fn.Blocks {
+		for _, in := range blk.Instrs {
+			c, ok := in.(*ssa.Call)
+			if !ok || ws.Register == "" {
+				continue
+			}
+			if callSiteName(&c.Call) != ws.Register {
+				continue
+			}
+			args := c.Call.Args
+			if !c.Call.IsInvoke() && c.Call.Signature().Recv() != nil {
+				args = args[1:]
+			}
+			if len(args) < 2 {
+				continue
+			}
+			path := tb.term(args[0])
+			got[strings.Trim(path, `"`)] = tb.term(args[1])
+		}
+	}
+	var paths []string
+	for p := range ws.Routes {
+		paths = append(paths, p)
+	}
+	sort.Strings(paths)
+	for _, p := range paths {
+		want := ws.Routes[p]
+		g, ok := got[p]
+		name := fmt.Sprintf("%s/wiring[%s]", ws.Function, p)
+		clause := fmt.Sprintf("route %s is registered as %s", p, want)
+		if !ok {
+			out = append(out, mkOb(name, "wiring", clause, false, "route not registered", ws.Props))
+			continue
+		}
+		out = append(out, mkOb(name, "wiring", clause, g == want, "found: "+g, ws.Props))
+	}
+	// no unexpected routes (a new route must be added to the spec deliberately)
+	var extra []string
+	for p := range got {
+		if _, ok := ws.Routes[p]; !ok {
+			extra = append(extra, p+" -> "+got[p])
+		}
+	}
+	sort.Strings(extra)
+	if ws.Register != "" {
+		out = append(out, mkOb(ws.Function+"/wiring[no-unlisted-routes]", "wiring", "every registered route is listed in the wiring spec", len(extra) == 0, strings.Join(extra, "; "), ws.Props))
+	}
+	if ws.Returns != "" {
+		var rets []string
+		for _, blk := range fn.Blocks {
+			for _, in := range blk.Instrs {
+				if r, ok := in.(*ssa.Return); ok && len(r.Results) > 0 {
+					rets = append(rets, tb.term(r.Results[0]))
+				}
+			}
+		}
+		sort.Strings(rets)
+		rets = uniq(rets)
+		g := strings.Join(rets, " | ")
+		out = append(out, mkOb(ws.Function+"/wiring[returns]", "wiring", "returns "+ws.Returns, g == ws.Returns, "found: "+g, ws.Props))
+	}
+	return out
+}
+
+func uniq(s []string) []string {
+	var out []string
+	for i, x := range s {
+		if i == 0 || x != s[i-1] {
+			out = append(out, x)
+		}
+	}
+	return out
+}
+
+// termBuilder renders the construction of a value as a term over function names.
+type termBuilder struct {
+	fn   *ssa.Function
+	seen map[ssa.Value]bool
+}
+
+func (tb *termBuilder) term(v ssa.Value) string {
+	if tb.seen[v] {
+		return "<cycle>"
+	}
+	tb.seen[v] = true
+	defer delete(tb.seen, v)
+	switch x := v.(type) {
+	case *ssa.Const:
+		if x.Value == nil {
+			return "nil"
+		}
+		if x.Value.Kind() == constant.String {
+			return fmt.Sprintf("%q", constant.StringVal(x.Value))
+		}
+		return x.Value.ExactString()
+	case *ssa.Parameter:
+		return x.Name()
+	case *ssa.FreeVar:
+		return x.Name()
+	case *ssa.Function:
+		return x.Name()
+	case *ssa.Global:
+		return x.Name()
+	case *ssa.ChangeType:
+		return tb.term(x.X)
+	case *ssa.ChangeInterface:
+		return tb.term(x.X)
+	case *ssa.MakeInterface:
+		return tb.term(x.X)
+	case *ssa.MakeClosure:
+		fn := x.Fn.(*ssa.Function)
+		n := strings.TrimSuffix(fn.Name(), "$bound")
+		if strings.HasSuffix(fn.Name(), "$bound") {
+			return n
+		}
+		var bs []string
+		for _, b := range x.Bindings {
+			bs = append(bs, tb.term(b))
+		}
+		return n + "{" + strings.Join(bs, ",") + "}"
+	case *ssa.Phi:
+		var es []string
+		for _, e := range x.Edges {
+			es = append(es, tb.term(e))
+		}
+		sort.Strings(es)
+		es = uniq(es)
+		return "either(" + strings.Join(es, "|") + ")"
+	case *ssa.Call:
+		return tb.callTerm(&x.Call)
+	case *ssa.Extract:
+		return tb.term(x.Tuple) + fmt.Sprintf(".%d", x.Index)
+	case *ssa.UnOp:
+		// load: of a field, of a local, of a global
+		switch a := x.X.(type) {
+		case *ssa.FieldAddr:
+			st := a.X.Type().Underlying().(*types.Pointer).Elem().Underlying().(*types.Struct)
+			return tb.term(a.X) + "." + st.Field(a.Field).Name()
+		case *ssa.Alloc:
+			return tb.allocTerm(a)
+		case *ssa.Global:
+			return a.Name()
+		case *ssa.FreeVar:
+			return a.Name()
+		}
+		return "load(" + tb.term(x.X) + ")"
+	case *ssa.Alloc:
+		if x.Comment != "" {
+			return "&" + x.Comment
+		}
+		return "new"
+	case *ssa.Slice:
+		// varargs: the elements stored into the backing array
+		if a, ok := x.X.(*ssa.Alloc); ok {
+			return "[" + strings.Join(tb.arrayElems(a), ",") + "]"
+		}
+		return tb.term(x.X)
+	case *ssa.FieldAddr:
+		st := x.X.Type().Underlying().(*types.Pointer).Elem().Underlying().(*types.Struct)
+		return "&" + tb.term(x.X) + "." + st.Field(x.Field).Name()
+	}
+	return fmt.Sprintf("?%T", v)
+}
+
+// allocTerm: the value of a local variable cell, when it is assigned exactly once.
+func (tb *termBuilder) allocTerm(a *ssa.Alloc) string {
+	var stores []*ssa.Store
+	for _, r := range *a.Referrers() {
+		if s, ok := r.(*ssa.Store); ok && s.Addr == a {
+			stores = append(stores, s)
+		}
+	}
+	if len(stores) == 1 {
+		return tb.term(stores[0].Val)
+	}
+	var es []string
+	for _, s := range stores {
+		es = append(es, tb.term(s.Val))
+	}
+	sort.Strings(es)
+	return "either(" + strings.Join(uniq(es), "|") + ")"
+}
+
+func (tb *termBuilder) arrayElems(a *ssa.Alloc) []string {
+	type kv struct {
+		i int64
+		s string
+	}
+	var els []kv
+	for _, r := range *a.Referrers() {
+		ia, ok := r.(*ssa.IndexAddr)
+		if !ok {
+			continue
+		}
+		c, ok := ia.Index.(*ssa.Const)
+		if !ok {
+			continue
+		}
+		idx, _ := constant.Int64Val(c.Value)
+		for _, r2 := range *ia.Referrers() {
+			if s, ok := r2.(*ssa.Store); ok {
+				els = append(els, kv{idx, tb.term(s.Val)})
+			}
+		}
+	}
+	sort.Slice(els, func(i, j int) bool { return els[i].i < els[j].i })
+	var out []string
+	for _, e := range els {
+		out = append(out, e.s)
+	}
+	return out
+}
+
+func (tb *termBuilder) callTerm(c *ssa.CallCommon) string {
+	name := callSiteName(c)
+	args := c.Args
+	if !c.IsInvoke() && c.Signature().Recv() != nil && len(args) > 0 {
+		args = args[1:] // receiver
+	}
+	if fn := c.StaticCallee(); fn != nil && !strings.HasPrefix(fnPkgPath(fn), modPrefix) && fn.Pkg != nil {
+		name = fn.Pkg.Pkg.Name() + "." + name
+	}
+	var as []string
+	for _, a := range args {
+		t := tb.term(a)
+		// flatten varargs lists
+		if strings.HasPrefix(t, "[") && strings.HasSuffix(t, "]") {
+			if t != "[]" {
+				as = append(as, strings.Split(t[1:len(t)-1], ",")...)
+			}
+			continue
+		}
+		as = append(as, t)
+	}
+	return name + "(" + strings.Join(as, ",") + ")"
+}
+
+func templateObligations(eng *Engine, key string) []*Obligation { return templateChecks(eng, key) }
